@@ -31,6 +31,7 @@ def Act.below (B T : Nat) : Act → Prop
   | .arrive _ _ => True
   | .eof _ _ => True
   | .connect a p => a < B ∧ p < B
+  | .routerOk th => th.below B T
   | .stopReq c => c < B
   | .stop c => c < B
 
@@ -189,6 +190,13 @@ theorem step_bounded {s s' : State} {a : Act} {o : Out} {B T : Nat} (hB : 0 < B)
         have h1 : c' ≠ a := ne_of_le_of_lt hc' ha.1
         have h2 : c' ≠ p := ne_of_le_of_lt hc' ha.2
         simp [h1, h2]
+    · simp at hs
+  | routerOk c =>
+    simp only [step] at hs
+    split at hs
+    · simp only [Option.some.injEq, Prod.mk.injEq] at hs
+      obtain ⟨rfl, -⟩ := hs
+      exact ⟨ho, fun _ _ => rfl, fun _ _ => rfl⟩
     · simp at hs
   | stopReq c =>
     simp only [Act.below] at ha
